@@ -15,9 +15,9 @@ use serde_json::json;
 pub const META: PropMeta = PropMeta {
     id: "C14",
     level: "exploration",
-    rule: "cases = (registry without bit sequences and 256-bit integers, id, seed, path settings): simulator programs (all primitives, unit / one-element tuples, arrays incl. > 32 elements and non-Copy elements, compact fields explicit and by attribute, unused type parameters in named / tuple / field-less structs and in enums, prelude composites), every id, 3 (quick) / 16 (thorough) seeds, 3 settings (root name, alloc path, compact path). Oracle: the returned tokens must parse as syn::Expr and are read in lockstep with the registry and the item the generator emits for the same id, checking exactly the enumerated clauses: literal path == resolve_type_path(id) without generics (+ ::Variant); field names and arity == the emitted item's, including the marker for unused parameters; literal suffix == the primitive's type (bool / char literals, \"..\".into() for strings); tuple / array / vec arity, a one-element tuple must be a tuple; same seed => same tokens; no panic (errors are fine). Accepted: Compact(..) around a value at any compact position, bare None, no Box::new, prelude composites checked against the registry's field list only. non-trivial = a returned example for a generated struct/enum; distinct by (registry hash, id, seed, settings).",
+    rule: "cases = (registry without bit sequences and 256-bit integers, id, seed, path settings): simulator programs (all primitives, unit / one-element tuples, arrays incl. > 32 elements and non-Copy elements, compact fields explicit and by attribute, unused type parameters in named / tuple / field-less structs and in enums, prelude composites), every id, 3 (quick) / 16 (thorough) seeds, 3 settings (root name, alloc path, compact path); plus the hand-written gallery of recursive types that can terminate (see C12) with 48 / 512 seeds. Oracle: the returned tokens must parse as syn::Expr and are read in lockstep with the registry and the item the generator emits for the same id, checking exactly the enumerated clauses: literal path == resolve_type_path(id) without generics (+ ::Variant); field names and arity == the emitted item's, including the marker for unused parameters; literal suffix == the primitive's type (bool / char literals, \"..\".into() for strings); tuple / array / vec arity, a one-element tuple must be a tuple; same seed => same tokens; no panic (errors are fine); bounded progress (restating 'recursion yields an error rather than a crash'): transformer resolve calls <= 4x the oracle's unfolding size of the type + 8 (sequences x2, arrays x max(len,1), enums = largest variant, cut at the first revisit of an in-progress id). Accepted: Compact(..) around a value at any compact position, bare None, no Box::new, prelude composites checked against the registry's field list only. non-trivial = a returned example for a generated struct/enum; distinct by (registry hash, id, seed, settings).",
     assumptions: &["only the clauses enumerated in the statement are checked"],
-    required_counters: &["examples_read", "struct_literals", "variant_literals", "markers_expected", "one_tuples", "arrays", "vecs", "primitive_literals[u16]", "primitive_literals[i8]", "primitive_literals[str]", "same_seed_compared"],
+    required_counters: &["examples_read", "struct_literals", "variant_literals", "markers_expected", "one_tuples", "arrays", "vecs", "primitive_literals[u16]", "primitive_literals[i8]", "primitive_literals[str]", "same_seed_compared", "resolve_calls_observed", "gallery_registries"],
     floor: (3000, 100_000),
     shards: (16, 16),
 };
